@@ -44,7 +44,11 @@ from props import liftfull_engine
 LF_SELFTEST_SRC = "template S() { signal input a; signal output b; b <-- a; }"
 
 # class name (c08gen) -> id in known_findings.jsonl
-KF_IDS = {"decl-tuple-dup-name": "C08-decl-tuple-duplicate-name"}
+KF_IDS = {"decl-tuple-dup-name": "C08-decl-tuple-duplicate-name",
+          # fourth audit: the pass compares access vectors with `==`: a constraint statement that uses an element / a
+          # containing array of the assigned (sub)array is not listed.  Accepted (as exactly that output) only while the
+          # id is listed as `known` in known_findings.jsonl; otherwise a VIOLATION with the source as failing input.
+          c08gen.PARTIAL_CLASS: "C08-partial-access-mention"}
 
 
 # ----------------------------------------------------------------------------
@@ -244,23 +248,24 @@ def oracle_want(want, got):
 
 
 def known_class(defn, got, listed):
-    """The id of the known finding that explains the failure of `defn`, if
-    the definition is in that finding's syntactic class, the finding is listed
-    as `known`, and the output is exactly what that defect produces."""
-    for cls in sorted(c08gen.known_classes(defn)):
-        if cls in KF_IDS and KF_IDS[cls] in listed:
-            groups = sorted(c08gen.dup_groups(defn).items())
+    """The ids of the known findings that explain the failure of `defn`, if
+    the definition is in those findings' syntactic classes, they are listed
+    as `known`, and the output is exactly what those defects produce."""
+    classes = [cls for cls in sorted(c08gen.known_classes(defn)) if cls in KF_IDS and KF_IDS[cls] in listed]
+    for r in range(1, len(classes) + 1):
+        for sub in itertools.combinations(classes, r):
+            groups = sorted(c08gen.dup_groups(defn).items()) if "decl-tuple-dup-name" in sub else []
             # every way the records of a group may collapse: 1 .. size findings per group
             for counts in itertools.product(*[range(1, n + 1) for _, n in groups]):
                 keep = {g: c for (g, _), c in zip(groups, counts)}
-                if oracle_want(c08gen.expected(defn, known=(cls,), keep=keep), got) is None:
-                    return KF_IDS[cls]
+                if oracle_want(c08gen.expected(defn, known=sub, keep=keep), got) is None:
+                    return [KF_IDS[cls] for cls in sub]
     return None
 
 
 def hypothesis_exempt(defn, listed):
     """`keys_distinct` is known to fail on the cfgs of exactly the listed known-finding classes."""
-    return any(cls in KF_IDS and KF_IDS[cls] in listed for cls in c08gen.known_classes(defn))
+    return any(cls in KF_IDS and KF_IDS[cls] in listed for cls in c08gen.known_classes(defn) - {c08gen.PARTIAL_CLASS})
 
 
 # ----------------------------------------------------------------------------
@@ -285,29 +290,258 @@ def region(reg, index):
     return (off(reg["startLine"], reg["startColumn"]), off(reg["endLine"], reg["endColumn"]))
 
 
-def run_cli(cli, workdir, idx, src):
+# Fourth audit.  (a) The run is no longer always `--verbose --sarif-file <abs> <abs path>`: every run draws (seeded)
+# the spelling of the paths (absolute; relative to cwd = the project directory; `./relative`), of every option
+# (`-v` / `--verbose` / none, `-l` / `--level` with INFO / WARNING in several cases / none, `-s` / `--sarif-file`,
+# `-c` / `--curve` with the three curves / none), the position of the options (before / after the files) and the
+# layout (the file alone; a second named file before or after it; the file INCLUDED by a named main file and named
+# as well - a file that is only included has its findings hidden by design, C03/C19).  (b) The rendered BODY of every
+# displayed CS0005 / CS0013 diagnostic is read: the underlined ranges (`^^^` primary, `---` secondary) are converted to
+# byte ranges of the source and judged by the same oracle as the SARIF results, and the label texts are compared with
+# the SARIF messages of the same run; in non-verbose mode (no `[CS0005]` in the header) the finding is identified by
+# its message, through the SARIF results of the same run.
+SECOND_SRC = ("pragma circom 2.1.4;\ntemplate Second() {\n    signal input a;\n    signal output b;\n"
+              "    b <-- a \\ 2;\n    b * 2 === a;\n}\n")
+MAIN_INC = ('pragma circom 2.1.4;\ninclude "lib.circom";\ntemplate IncMain() {\n    signal input a;\n    signal output b;\n'
+            '    b <== a;\n}\n')
+CURVES = [["-c", "BN254"], ["--curve", "BLS12_381"], ["-c", "GOLDILOCKS"]]
+# fallback only (non-verbose run whose SARIF holds no result with the displayed message)
+MESSAGE_CODE = {"Using the signal assignment operator `<--` does not constrain the assigned signal.": "CS0005",
+                "Using the signal assignment operator `<--` is not necessary here.": "CS0013"}
+
+
+def second_expected():
+    a, c = "b <-- a \\ 2", "b * 2 === a;"
+    i, j = SECOND_SRC.index(a), SECOND_SRC.index(c)
+    return [((i, i + len(a)), [(j, j + len(c))])]
+
+
+def cli_variant(rng):
+    return {"layout": rng.choice(["single", "single", "single", "second-file", "second-file-first", "included-both"]),
+            "argv": rng.choice(["abs", "rel", "dotrel"]),
+            "verbose": rng.choice([None, "-v", "--verbose"]),
+            "level": rng.choice([None, ["-l", "INFO"], ["--level", "WARNING"], ["-l", "warning"], ["--level=info"], ["-l", "Info"]]),
+            "sarif": rng.choice(["-s", "--sarif-file"]),
+            "curve": rng.choice([None, None] + CURVES + [["--curve", "bls12_381"], ["-c", "goldilocks"]]),
+            "options_last": rng.random() < 0.3}
+
+
+def variant_name(var):
+    return "%s, %s paths, %s, level %s, %s, curve %s%s" % (
+        var["layout"], var["argv"], var["verbose"] or "not verbose", " ".join(var["level"]) if var["level"] else "default",
+        var["sarif"], " ".join(var["curve"]) if var["curve"] else "default", ", options after the files" if var["options_last"] else "")
+
+
+B_HEAD = re.compile(r"^(error|warning|note|help|bug)(?:\[([^\]]+)\])?: (.*)$")
+B_LOC = re.compile(r"^\s*(?:\u250c\u2500|\u252c\u2500|\u251c\u2500) (.*):(\d+):(\d+)$")
+B_NUM = re.compile(r"^\s*(\d+) \u2502(.*)$")
+B_MARK = re.compile(r"^\s+\u2502(.*)$")
+
+
+def read_bodies(text):
+    """The displayed diagnostics with the UNDERLINED RANGES of their bodies: per diagnostic severity, code (None when
+    the header shows none), message, the `file:line:col` headers, `runs` = [(line, start column, end column, "P"|"S")]
+    (1-based character columns, end exclusive: `^^^` = primary, `---` = secondary, under the numbered source line
+    they follow), `complex` = a label spanning several lines was drawn (its range is not read)."""
+    out, cur, lineno = [], None, None
+    for line in text.split("\n"):
+        if line.startswith("circomspect: "):
+            cur = None
+            continue
+        m = B_HEAD.match(line)
+        if m:
+            cur = {"severity": m.group(1), "code": m.group(2), "message": m.group(3), "loci": [], "runs": [], "complex": False}
+            out.append(cur)
+            lineno = None
+            continue
+        if cur is None:
+            continue
+        m = B_LOC.match(line)
+        if m:
+            cur["loci"].append((m.group(1), int(m.group(2)), int(m.group(3))))
+            lineno = None
+            continue
+        m = B_NUM.match(line)
+        if m:
+            lineno = int(m.group(1))
+            if m.group(2)[1:2] in ("\u256d", "\u2502", "\u2570"):
+                cur["complex"] = True
+            continue
+        m = B_MARK.match(line)
+        if not m or lineno is None:
+            continue
+        rest = m.group(1)
+        if "\u256d" in rest or "\u2570" in rest:
+            cur["complex"] = True
+            continue
+        marks = re.match(r"[ \u2502\^\-]*", rest).group(0)
+        for r in re.finditer(r"\^+|-+", marks):
+            # rest[0] is the blank after the gutter bar: the source's column 1 is rest[1]
+            cur["runs"].append((lineno, r.start(), r.end(), "P" if r.group(0)[0] == "^" else "S"))
+    return out
+
+
+def run_cli(cli, workdir, idx, src, var, keep_dir=False):
+    """One run of the binary.  Returns per named file (by base name) the CS0005 / CS0013 findings read from the SARIF
+    file and - separately - from the rendered text, both as (code, [primary byte ranges], [secondary byte ranges])."""
+    import e2e
     d = os.path.join(workdir, "e2e%d" % idx)
     os.makedirs(d, exist_ok=True)
-    path = os.path.join(d, "input.circom")
-    with open(path, "w", encoding="utf-8") as f:
-        f.write(src)
-    sarif = os.path.join(d, "out.sarif")
-    rc, out, err = common.sh([cli, "--verbose", "--sarif-file", sarif, path], timeout=120)
-    starts = offsets(src)
-    found = []
+    layout = var["layout"]
+    own = "lib.circom" if layout == "included-both" else "main.circom"
+    files, names = {own: src}, [own]
+    if layout == "second-file":
+        files["second.circom"], names = SECOND_SRC, [own, "second.circom"]
+    elif layout == "second-file-first":
+        files["second.circom"], names = SECOND_SRC, ["second.circom", own]
+    elif layout == "included-both":
+        files["main.circom"], names = MAIN_INC, ["main.circom", own]
+    for n, t in files.items():
+        with open(os.path.join(d, n), "w", encoding="utf-8") as f:
+            f.write(t)
+    if var["argv"] == "abs":
+        argv, cwd, sarif = [os.path.join(d, n) for n in names], workdir, os.path.join(d, "out.sarif")
+    elif var["argv"] == "rel":
+        argv, cwd, sarif = list(names), d, "out.sarif"
+    else:
+        argv, cwd, sarif = ["./" + n for n in names], d, "./out.sarif"
+    opts = ([var["verbose"]] if var["verbose"] else []) + (var["level"] or []) + [var["sarif"], sarif] + (var["curve"] or [])
+    cmd = [cli] + (argv + opts if var["options_last"] else opts + argv)
+    rc, out, err = common.sh(cmd, cwd=cwd, timeout=120, env=dict(os.environ, NO_COLOR="1"))
+    index = {n: offsets(t) for n, t in files.items()}
+    res = {"rc": rc, "cmd": " ".join(cmd[1:]), "cwd": cwd, "files": {n: {"sarif": [], "body": [], "labels_sarif": [], "labels_body": []}
+                                                                      for n in files}, "problems": [], "complex": 0}
+    msg_code = {}
     try:
-        data = json.load(open(sarif))
+        data = json.load(open(os.path.join(d, "out.sarif")))
         for r in data["runs"][0]["results"]:
             if r.get("ruleId") in ("CS0005", "CS0013"):
-                prim = [region(l["physicalLocation"]["region"], starts) for l in r.get("locations", [])]
-                sec = sorted(region(l["physicalLocation"]["region"], starts) for l in r.get("relatedLocations", []))
-                found.append((r["ruleId"], prim, sec))
-    except (OSError, ValueError, KeyError) as e:
-        return {"error": "no SARIF output: %r rc=%s %s" % (e, rc, (out + err)[-300:])}
+                msg_code[r["message"]["text"]] = r["ruleId"]
+                uris = {l["physicalLocation"]["artifactLocation"]["uri"] for l in r.get("locations", []) + r.get("relatedLocations", [])}
+                base = {os.path.basename(u) for u in uris}
+                if len(base) != 1 or next(iter(base)) not in files:
+                    res["problems"].append("SARIF result %s names the files %s" % (r["ruleId"], sorted(uris)))
+                    continue
+                n = next(iter(base))
+                prim = [region(l["physicalLocation"]["region"], index[n]) for l in r.get("locations", [])]
+                sec = sorted(region(l["physicalLocation"]["region"], index[n]) for l in r.get("relatedLocations", []))
+                res["files"][n]["sarif"].append((r["ruleId"], prim, sec))
+                strong = set(prim)
+                res["files"][n]["labels_sarif"].append((r["ruleId"], sorted(
+                    [["P", l.get("message", {}).get("text", "")] for l in r.get("locations", [])] +
+                    [["P" if region(l["physicalLocation"]["region"], index[n]) in strong else "S", l.get("message", {}).get("text", "")]
+                     for l in r.get("relatedLocations", [])])))
+    except (OSError, ValueError, KeyError, IndexError) as e:
+        return {"error": "no SARIF output: %r rc=%s cmd=%s cwd=%s %s" % (e, rc, " ".join(cmd[1:]), cwd, (out + err)[-300:])}
     text = out + err
-    heads = collections.Counter(re.findall(r"warning\[(CS0005|CS0013)\]", text))
-    shutil.rmtree(d, ignore_errors=True)
-    return {"found": sorted(found), "heads": dict(heads), "rc": rc}
+    bodies = read_bodies(text)
+    labelled = e2e.parse_bodies(text)
+    if len(labelled) != len(bodies):
+        res["problems"].append("the two readers of the rendered text count %d and %d diagnostics" % (len(bodies), len(labelled)))
+        labelled = [None] * len(bodies)
+    heads = 0
+    for b, lb in zip(bodies, labelled):
+        code = b["code"] or msg_code.get(b["message"]) or MESSAGE_CODE.get(b["message"])
+        if bool(b["code"]) != bool(var["verbose"]):
+            res["problems"].append("header `%s%s: ..` in a run %s --verbose" % (b["severity"], "[%s]" % b["code"] if b["code"] else "",
+                                                                            "with" if var["verbose"] else "without"))
+        if code not in ("CS0005", "CS0013"):
+            continue
+        heads += 1
+        base = {os.path.basename(pth) for pth, _, _ in b["loci"]}
+        if len(base) != 1 or next(iter(base)) not in files:
+            res["problems"].append("displayed %s names the files %s" % (code, sorted(base)))
+            continue
+        n = next(iter(base))
+        # (the tool displays the path it read the file from - absolute even when the command line was relative: observed,
+        # counted, not judged; the findings are attributed to the named files by base name)
+        if any(pth != dict(zip(names, argv)).get(n) for pth, _, _ in b["loci"]):
+            res["displayed_path_differs_from_argv"] = res.get("displayed_path_differs_from_argv", 0) + 1
+        if lb is not None:
+            unread = [u for u in lb["unparsed"] if u.strip(" \u00b7")]      # `·` = lines left out of the snippet
+            if unread:
+                res["files"][n].setdefault("unread", []).append("lines of the rendered %s not understood: %s" % (code, unread[:2]))
+            res["files"][n]["labels_body"].append((code, sorted(lb["labels"])))
+        if b["complex"]:
+            res["complex"] += 1
+            res["files"][n]["body"] = None
+            continue
+        if res["files"][n]["body"] is None:
+            continue
+        def rg(run):
+            return region({"startLine": run[0], "startColumn": run[1], "endLine": run[0], "endColumn": run[2]}, index[n])
+        try:
+            res["files"][n]["body"].append((code, [rg(r) for r in b["runs"] if r[3] == "P"], sorted(rg(r) for r in b["runs"] if r[3] == "S")))
+        except IndexError:
+            res["problems"].append("displayed %s underlines %s: outside the text of %s" % (code, b["runs"], n))
+    res["heads"] = heads
+    for n in files:
+        res["files"][n]["sarif"].sort()
+        if res["files"][n]["body"] is not None:
+            res["files"][n]["body"].sort()
+        res["files"][n]["labels_sarif"].sort()
+        res["files"][n]["labels_body"].sort()
+    res["own"] = own
+    if not keep_dir:
+        shutil.rmtree(d, ignore_errors=True)
+    return res
+
+
+def same_line_overlap(found, index):
+    """Two labels of one finding on one source line (codespan then draws them on shared marker lines, overlapping
+    ranges merged): the positions read from the rendered text are not judged for such a file, only counted."""
+    starts, _ = index
+    import bisect
+    def line(off):
+        return bisect.bisect_right(starts, off)
+    for _, prim, sec in found:
+        ls = [line(a) for a, _ in prim + sec]
+        if len(ls) != len(set(ls)):
+            return True
+    return False
+
+
+def judge_cli(res, wants, srcs, var):
+    """-> (list of failure texts, counters).  `wants`: base name -> the oracle's [(anchor, secondaries)];
+    `srcs`: base name -> text."""
+    why, cnt = [], collections.Counter()
+    for n, fr in res["files"].items():
+        want = sorted(wants.get(n, []))
+        w1 = oracle_want(want, {"reports": fr["sarif"]})
+        if w1:
+            why.append("SARIF, %s: %s" % (n, w1))
+        cnt["findings_in_sarif"] += len(fr["sarif"])
+        crowded = same_line_overlap(fr["sarif"], offsets(srcs[n])) or \
+            same_line_overlap([("", [a], list(sx)) for a, sx in want], offsets(srcs[n]))
+        if fr["body"] is None:
+            cnt["files_with_a_label_over_several_lines_positions_not_read"] += 1
+        elif crowded:
+            cnt["files_with_two_labels_on_one_line_positions_not_judged"] += 1
+        else:
+            w2 = oracle_want(want, {"reports": fr["body"]})
+            if w2:
+                why.append("rendered text, %s (ranges underlined with ^^^ / ---): %s" % (n, w2))
+            cnt["findings_whose_underlined_ranges_were_judged"] += len(fr["body"])
+            cnt["secondary_underlines_judged"] += sum(len(sx) for _, _, sx in fr["body"])
+        if crowded:
+            # codespan merges / stacks labels that share a source line: only the primary label texts are compared
+            prim = lambda ls: sorted((code, [l for l in labs if l[0] == "P"][:1]) for code, labs in ls)
+            if prim(fr["labels_body"]) != prim(fr["labels_sarif"]):
+                why.append("%s: the primary labels displayed %s are not those of the SARIF results %s"
+                           % (n, prim(fr["labels_body"])[:3], prim(fr["labels_sarif"])[:3]))
+            cnt["files_with_two_labels_on_one_line_secondary_label_texts_not_compared"] += 1
+            continue
+        why += fr.get("unread", [])
+        if fr["labels_body"] != fr["labels_sarif"]:
+            bad = next((a, b) for a, b in itertools.zip_longest(fr["labels_body"], fr["labels_sarif"]) if a != b)
+            why.append("%s: the labels displayed (%d findings) are not the labels of the SARIF results (%d); first difference: displayed %s, SARIF %s"
+                       % (n, len(fr["labels_body"]), len(fr["labels_sarif"]), bad[0], bad[1]))
+        cnt["label_texts_compared"] += sum(len(l) for _, l in fr["labels_sarif"])
+    nsarif = sum(len(fr["sarif"]) for fr in res["files"].values())
+    if not why and res["heads"] != nsarif:
+        why.append("the output shows %d CS0005/CS0013 diagnostics, SARIF has %d results" % (res["heads"], nsarif))
+    why += res["problems"]
+    return why, cnt
 
 
 # ----------------------------------------------------------------------------
@@ -442,7 +676,7 @@ def run(ctx, proofs):
     for c, im, mo in triples:
         if c["origin"].startswith("corpus"):
             pass
-        elif any(c08gen.known_classes(d) for d in c["defs"]):
+        elif any(c08gen.known_classes(d) - {c08gen.PARTIAL_CLASS} for d in c["defs"]):
             dropped["file kept out of the CLI end-to-end pool: holds a known-finding shape (judged in process)"] += 1
         elif len(e2e_pool) < 4 * (96 if quick else 600):
             e2e_pool.append(c)
@@ -540,6 +774,13 @@ def run(ctx, proofs):
                                         ("idx_mention", "`S <-- e` followed by a constraint that mentions S only inside an index")):
                         if a.get(flag):
                             shapes[label] += 1
+                    if a.get("partial"):
+                        shapes["`<--` to a whole array" if a["partial"] == "whole" else "`<--` to a partially indexed array"] += 1
+                    if a.get("rest") and "." in a["key"][1]:
+                        shapes["`<--` to a whole / partially indexed array PORT of a component"] += 1
+                    if a.get("partial_mention"):
+                        shapes["`T <-- e` followed by a constraint that mentions T only through a %s access"
+                               % {"extends": "longer", "prefix": "shorter", "prefix-of-element": "shorter"}[a["partial_mention"]]] += 1
                     if a["key"][0] == "q0":
                         shapes["`<--` to an element of a 3-dimensional signal"] += 1
                     if a["key"][0] == "cm":
@@ -550,6 +791,15 @@ def run(ctx, proofs):
                 if inner_only:
                     stats["secondaries_demanded_through_an_index_only"] += inner_only
                     shapes["constraint mentions the assigned signal only inside an index"] += 1
+            part = c08gen.partial_assigns(defn)
+            if part:
+                stats["assignments_mentioned_through_a_longer_or_shorter_access_only"] += len(part)
+                for a in part:
+                    for con in defn["constraints"]:
+                        if c08gen.partial_only(a["key"], con):
+                            longer = any(m[0] == a["key"][0] and len(m[1]) > len(a["key"][1]) and c08gen.prefix_compatible(m[1], a["key"][1])
+                                         for m in con["mentions"])
+                            stats["secondaries_demanded_through_a_%s_access_only" % ("longer" if longer else "shorter")] += 1
             if "header" in defn:
                 shapes["header `%s`" % defn["header"].strip()] += 1
                 if defn["kind"] == "template" and defn.get("parallel"):
@@ -557,10 +807,20 @@ def run(ctx, proofs):
             if why:
                 kf = known_class(defn, got, listed)
                 if kf:
-                    known_hits[kf] += 1
+                    for k_id in kf:
+                        known_hits[k_id] += 1
                 else:
-                    failing.append({"input": c["src"], "origin": c["origin"], "definition": name, "why": why,
-                                    "impl": got.get("raw", got.get("liftfail")), "spec": want})
+                    pc = c08gen.PARTIAL_CLASS in c08gen.known_classes(defn)
+                    # is it exactly what comparing accesses with `==` produces (the deviation of 517e7a0), or something else?
+                    eq_out = pc and known_class(defn, got, set(listed) | {KF_IDS[c08gen.PARTIAL_CLASS]}) is not None
+                    if pc:
+                        stats["partial_class_failures_equal_to_the_equality_output" if eq_out else
+                              "partial_class_failures_NOT_equal_to_the_equality_output"] += 1
+                    failing.append({"input": c["src"], "origin": c["origin"], "definition": name,
+                                    "why": why + ("" if not pc else " [class partial-access-mention: the output is %s what equality "
+                                                  "of accesses gives]" % ("exactly" if eq_out else "NOT")),
+                                    "impl": got.get("raw", got.get("liftfail")), "spec": want,
+                                    "partial_class": pc, "equality_output": eq_out})
             elif "reports" in got:
                 by_anchor = collections.defaultdict(list)
                 for code, prim, sec in got["reports"]:
@@ -569,8 +829,13 @@ def run(ctx, proofs):
                         stats["CS0005_with_secondaries"] += 1
                     by_anchor[prim[0]].append((code, min(len(set(sec)), 4)))
                 akeys_io = {tuple(k) for con in defn["constraints"] for k in con.get("only_in_index", [])}
+                pkeys = {tuple(a["key"]) for a in part} if defn["kind"] == "template" else set()
                 for a in defn["assigns"]:
                     for code, nsec in by_anchor.get(tuple(a["anchor"]), []):
+                        if code == "CS0005" and nsec and tuple(a["key"]) in pkeys:
+                            stats["CS0005_with_secondary_through_longer_or_shorter_access_only"] += 1
+                        if code == "CS0005" and nsec and a.get("rest"):
+                            stats["CS0005_with_secondaries_for_array_valued_target"] += 1
                         if code == "CS0005" and nsec and tuple(a["key"]) in akeys_io and defn["kind"] == "template":
                             stats["CS0005_with_secondary_through_index_only"] += 1
                         if code == "CS0005" and nsec and a.get("tagged"):
@@ -745,8 +1010,18 @@ def run(ctx, proofs):
                 "`<--` to an element whose index holds a local variable",
                 "`S <-- e` followed by a constraint that mentions S only inside an index",
                 "constraint mentions the assigned signal only inside an index",
-                "`<--` to an element of a 3-dimensional signal", "`<--` to a port of a 2-dimensional component array"]
+                "`<--` to an element of a 3-dimensional signal", "`<--` to a port of a 2-dimensional component array",
+                # fourth audit: the only witnesses of an edit of the access comparison that differs on partial accesses alone
+                "`<--` to a whole array", "`<--` to a partially indexed array",
+                "`T <-- e` followed by a constraint that mentions T only through a longer access",
+                "`T <-- e` followed by a constraint that mentions T only through a shorter access"]
     missing = [k for k in required if not shapes[k]]
+    if not (stats["CS0005_with_secondary_through_longer_or_shorter_access_only"] or known_hits.get(KF_IDS[c08gen.PARTIAL_CLASS])
+            or any(f.get("partial_class") for f in failing)):
+        missing.append("a CS0005 finding judged (held, known finding, or failure) whose target is mentioned through a longer / shorter access only")
+    if not stats["CS0005_with_secondaries_for_array_valued_target"] and not stats["CS0005_with_secondary_through_longer_or_shorter_access_only"] \
+            and not known_hits.get(KF_IDS[c08gen.PARTIAL_CLASS]) and not failing:
+        missing.append("a CS0005 finding with secondaries for a whole-array / partially indexed target")
     if not stats["findings_demanded_in_parallel_templates"]:
         missing.append("`<--` inside a parallel template")
     if not stats["CS0005_with_secondary_through_index_only"]:
@@ -757,40 +1032,117 @@ def run(ctx, proofs):
         hyp_broken.append({"input": None, "origin": "generator", "definition": "-",
                            "hypothesis": "generator c08gen no longer writes the shapes %s" % missing})
 
-    # end to end through the binary
+    # end to end through the binary (fourth audit: seeded spellings of paths and options, layouts, the rendered body)
     ne2e = 96 if quick else 600
     pick = e2e_pool
     random.Random(ctx.seed).shuffle(pick)
-    pick = [c for c in corpus if not any(c08gen.known_classes(d) for d in c["defs"])] + pick[:ne2e]
+    pick = [c for c in corpus if not any(c08gen.known_classes(d) - {c08gen.PARTIAL_CLASS} for d in c["defs"])] + pick[:ne2e]
     work = os.path.join(ctx.work, "e2e")
     shutil.rmtree(work, ignore_errors=True)
     os.makedirs(work, exist_ok=True)
+    vrng = random.Random(ctx.seed * 7919 + 13)
+    jobs = []
+    axes = ("layout", "argv", "verbose", "level", "sarif", "curve")
+    for i, c in enumerate(pick):
+        var = cli_variant(vrng)
+        if i < 3 * len(axes) * 2:
+            # the first runs walk through every value of the three axes the reviewers named, whatever the seed draws
+            forced = [("argv", "abs"), ("argv", "rel"), ("argv", "dotrel"), ("verbose", None), ("verbose", "-v"), ("verbose", "--verbose"),
+                      ("layout", "single"), ("layout", "second-file"), ("layout", "second-file-first"), ("layout", "included-both"),
+                      ("curve", CURVES[0]), ("curve", CURVES[1]), ("curve", CURVES[2]), ("curve", None),
+                      ("level", None), ("level", ["-l", "INFO"]), ("level", ["--level", "WARNING"]), ("sarif", "-s"), ("sarif", "--sarif-file")]
+            if i < len(forced):
+                var[forced[i][0]] = forced[i][1]
+        jobs.append((len(jobs), c, var, "main"))
+    # CS0005 / CS0013 must not depend on the curve: a subset of the files is run with each of the three curves,
+    # everything else equal
+    ncurve = 12 if quick else 60
+    for c, var0 in [(j[1], j[2]) for j in jobs[len(pick) - min(ncurve, len(pick)):]]:
+        for cv in CURVES:
+            jobs.append((len(jobs), c, dict(var0, curve=cv), "curve"))
     with concurrent.futures.ThreadPoolExecutor(max_workers=common.NPROC) as ex:
-        e2e = list(ex.map(lambda t: run_cli(cli, work, t[0], t[1]["src"]), enumerate(pick)))
+        e2e_res = list(ex.map(lambda t: run_cli(cli, work, t[0], t[1]["src"], t[2]), jobs))
     e2e_checked = 0
-    for c, res in zip(pick, e2e):
+    e2e_cnt = collections.Counter()
+    e2e_variants = collections.Counter()
+    by_curve = collections.defaultdict(dict)
+    partial_known = (c08gen.PARTIAL_CLASS,) if KF_IDS[c08gen.PARTIAL_CLASS] in listed else ()
+    for (ji, c, var, kind), res in zip(jobs, e2e_res):
+        vname = variant_name(var)
         if "error" in res:
-            failing.append({"input": c["src"], "origin": c["origin"], "why": "CLI: " + res["error"], "impl": None, "spec": None})
+            failing.append({"input": c["src"], "origin": c["origin"], "why": "CLI (%s): %s" % (vname, res["error"]), "impl": None,
+                            "spec": None, "e2e": True, "variant": var})
             continue
         e2e_checked += 1
+        if kind == "main":
+            for ax in axes:
+                v = var[ax]
+                e2e_variants["%s: %s" % (ax, " ".join(v) if isinstance(v, list) else v)] += 1
+            if var["options_last"]:
+                e2e_variants["options after the files"] += 1
+        own = res["own"]
         want = []
         for defn in c["defs"]:
             want += c08gen.expected(defn)
-        # per-file comparison: the union of the per-definition expectations
-        why = oracle_want(sorted(want), {"reports": res["found"]})
-        nhead = sum(res["heads"].values())
-        if not why and nhead != len(res["found"]):
-            why = "--verbose output shows %d CS0005/CS0013 headers, SARIF has %d results" % (nhead, len(res["found"]))
+        wants, srcs = {own: want}, {own: c["src"]}
+        if "second.circom" in res["files"]:
+            wants["second.circom"], srcs["second.circom"] = second_expected(), SECOND_SRC
+        if var["layout"] == "included-both":
+            wants["main.circom"], srcs["main.circom"] = [], MAIN_INC
+        why, cnt = judge_cli(res, wants, srcs, var)
+        kf_ids = None
+        if why and partial_known and any(c08gen.PARTIAL_CLASS in c08gen.known_classes(d) for d in c["defs"]):
+            # the listed known finding: the run must show exactly what that defect produces
+            want_k = []
+            for defn in c["defs"]:
+                want_k += c08gen.expected(defn, known=partial_known)
+            why_k, cnt_k = judge_cli(res, dict(wants, **{own: want_k}), srcs, var)
+            if not why_k:
+                why, cnt, kf_ids = [], cnt_k, [KF_IDS[c08gen.PARTIAL_CLASS]]
+                known_hits[kf_ids[0]] += 1
+                e2e_cnt["runs_showing_the_listed_known_finding"] += 1
+        e2e_cnt.update(cnt)
+        e2e_cnt["diagnostics_displayed_with_a_path_spelled_differently_from_the_command_line"] += res.get("displayed_path_differs_from_argv", 0)
+        e2e_cnt["findings_displayed_not_verbose" if not var["verbose"] else "findings_displayed_verbose"] += res["heads"]
+        if kind == "curve":
+            by_curve[(id(c), json.dumps({k: v for k, v in var.items() if k != "curve"}, sort_keys=True))][var["curve"][1]] = \
+                (c, {n: fr["sarif"] for n, fr in res["files"].items()}, var)
         if why:
-            failing.append({"input": c["src"], "origin": c["origin"], "why": "end to end (CLI): " + why,
-                            "impl": res["found"], "spec": want, "e2e": True})
+            failing.append({"input": c["src"], "origin": c["origin"], "why": "end to end (CLI: %s; `circomspect %s` in %s): %s"
+                            % (vname, res["cmd"], res["cwd"], "; ".join(why[:3])),
+                            "impl": {n: {"sarif": fr["sarif"], "rendered": fr["body"]} for n, fr in res["files"].items()},
+                            "spec": want, "e2e": True, "variant": var,
+                            "partial_class": any(c08gen.PARTIAL_CLASS in c08gen.known_classes(d) for d in c["defs"])})
+    for key, runs3 in by_curve.items():
+        if len(runs3) == len(CURVES):
+            e2e_cnt["files_run_with_all_three_curves"] += 1
+            vals = [runs3[cv[1]][1] for cv in CURVES]
+            if any(v != vals[0] for v in vals[1:]):
+                c = runs3[CURVES[0][1]][0]
+                failing.append({"input": c["src"], "origin": c["origin"], "why": "end to end (CLI): the CS0005 / CS0013 findings depend on "
+                                "the curve: " + "; ".join("%s: %d" % (cv[1], sum(len(x) for x in runs3[cv[1]][1].values())) for cv in CURVES),
+                                "impl": {cv[1]: runs3[cv[1]][1] for cv in CURVES}, "spec": "the same findings for every curve",
+                                "e2e": True, "variant": runs3[CURVES[0][1]][2]})
+    # the axes must all have been walked, and the body reader must have read something in both modes
+    e2e_missing = [k for k in ["argv: abs", "argv: rel", "argv: dotrel", "verbose: None", "verbose: -v", "verbose: --verbose",
+                               "layout: single", "layout: second-file", "layout: second-file-first", "layout: included-both",
+                               "curve: -c BN254", "curve: --curve BLS12_381", "curve: -c GOLDILOCKS", "sarif: -s", "sarif: --sarif-file"]
+                   if not e2e_variants[k]]
+    for k in ("findings_displayed_not_verbose", "findings_displayed_verbose", "secondary_underlines_judged", "label_texts_compared",
+              "files_run_with_all_three_curves"):
+        if not e2e_cnt[k]:
+            e2e_missing.append(k)
+    if e2e_missing and not failing:
+        hyp_broken.append({"input": None, "origin": "CLI stage", "definition": "-",
+                           "hypothesis": "degenerate CLI stage: never exercised / never read: %s" % e2e_missing})
 
     # known findings: their witnesses are corpus files (corpus/C08/K-*.json) and were replayed above
     for k in ctx.known:
         if known_hits.get(k["id"]):
             ctx.known_finding(k["id"], k["what"])
 
-    # verdict
+    # verdict (failures outside the partial-access class first: that class must not hide anything else)
+    failing.sort(key=lambda f: (bool(f.get("partial_class")), bool(f.get("equality_output"))))
     for f in failing[:5]:
         ctx.violation("C08 fails on %s%s: %s" % (f["origin"], (" definition " + f["definition"]) if f.get("definition") else "",
                                                    f.get("why", f.get("impl"))), f)
@@ -856,6 +1208,9 @@ def run(ctx, proofs):
             "generator's ground truth and C18's theorems, no C08 theorem speaks about the tree before desugaring",
             "claimed_quadratic (the degree claim that selects CS0013 vs CS0005) is the knowledge the degree pass attached: "
             "its meaning is C07 / C20",
+            "`mentions` for whole-array / partially indexed references: Spec.SigAssignSpec.same_use is equality of accesses "
+            "(the implementation's `==`); the prefix-compatible reading the oracle applies to the written text is not a Coq "
+            "statement - on the class `partial-access-mention` the theorems speak about the narrower relation",
         ],
         "source_statements_matched_with_cfg_statements": stats["source_statements_matched"],
         "keys_not_distinct_in_known_class": stats["keys_not_distinct_in_known_class"],
@@ -863,9 +1218,14 @@ def run(ctx, proofs):
         "hypothesis_selftest": selftest or "passed: a duplicated `<--` statement in a real dump is flagged by model and Python",
         "pass_panics_other_passes": stats["pass_panics"],
         "e2e_cli_files": e2e_checked,
+        "e2e_cli_variants": dict(e2e_variants),
+        "e2e_cli_rendered_body": dict(e2e_cnt),
         "disagreements_model_vs_impl": len(disagreements),
         "hypothesis_violations": len(hyp_broken),
         "oracle_failures": len(failing),
+        "oracle_failures_outside_the_partial_access_class": sum(1 for f in failing if not f.get("partial_class")),
+        "partial_class_failures_in_process": {"exactly the output of equality of accesses": stats["partial_class_failures_equal_to_the_equality_output"],
+                                              "something else": stats["partial_class_failures_NOT_equal_to_the_equality_output"]},
         "known_finding_hits": dict(known_hits),
         "samples": [{"origin": sample["origin"], "src": sample["src"][:1500],
                      "expected": [[d["name"], c08gen.expected(d)] for d in sample["defs"] if d["assigns"]][:3]}],
@@ -876,9 +1236,10 @@ def run(ctx, proofs):
         "by the model and re-computed in Python on every dumped cfg (and the evaluation is itself tested on every run "
         "with a dump in which one statement is duplicated), not proved from the parser: keys_distinct is FALSE for "
         "`signal (b, b) <-- (e, e)` (known finding C08-decl-tuple-duplicate-name, theorem "
-        "C08_keys_distinct_fails_on_lifted_source), so it cannot follow from distinct parser ranges alone; a proof for "
-        "sources without that shape needs a Coq model of ast -> ir statement lifting with metas "
-        "(intermediate_representation/lifting.rs), which does not exist (Model.Lift works on statement skeletons)",
+        "C08_keys_distinct_fails_on_lifted_source), so it cannot follow from distinct parser ranges alone; for the graph "
+        "before SSA the content-carrying lifting mirror Model.LiftFull gives it from distinct source metas (C08_liftfull_*, "
+        "C08_source_to_ssa_*); what is missing for a proof from the source text is the parser / desugarer side (distinct "
+        "metas of the desugared statements) and the access of the target through SSA versioning",
         "the source-level form subkeys_distinct (location, base name, component path; proved to imply keys_distinct) is "
         "checked per definition against the generator's record of the `<--` it wrote: the `sig` substitutions of the "
         "cfg are exactly the written statements (multiset equality) and the written ones are pairwise distinct",
@@ -890,11 +1251,27 @@ def run(ctx, proofs):
         "HashSet iteration order only permutes reports and secondary labels; both sides are sorted before comparison",
         "templates whose CFG/SSA construction fails are not analysed at all (C02/C18 territory); the theorems speak "
         "about cfgs that exist",
-        "'constraint statements mentioning the assigned signal' is read as: the statement's text contains a reference "
-        "with the same variable name and a syntactically equal access, anywhere - operand, left-hand side, or inside an "
-        "index expression of another reference (`t[s] === y` mentions s); the generator records occurrences of the text "
-        "it writes, it never asks the implementation what it read (DESIGN 5.3); index expressions hold constants, loop "
-        "variables and locals that are never reassigned, signals and `SIGNAL + 1`, so textual and IR equality coincide",
+        "'constraint statements mentioning the assigned signal' is read as (fourth audit): the statement's text contains "
+        "a reference with the same variable name whose access is PREFIX-COMPATIBLE with the access of the assignment "
+        "target - equal, a proper extension of it (an element / sub-array of the assigned array: `q0[1] <-- ..` and "
+        "`q0[1][0] === x`) or a proper prefix of it (an array that contains the assigned signal: `q0[1] <-- ..` and `q0 "
+        "=== [[..]]`) - anywhere: operand, left-hand side, or inside an index expression of another reference (`t[s] === "
+        "y` mentions s); access components are compared as written texts (`q0[0][0]` does not mention `q0[1]`; `a0[i]` "
+        "and `a0[0]` are different texts); on fully indexed references this is the old rule (equal name, equal access). "
+        "The generator records occurrences of the text it writes, it never asks the implementation what it read (DESIGN "
+        "5.3); index expressions hold constants, loop variables and locals that are never reassigned, signals and `SIGNAL "
+        "+ 1`, so textual and IR equality coincide.  The Coq specification's `same_use` (Spec.SigAssignSpec) is EQUALITY "
+        "of name and access - what signal_assignments.rs implements; the theorems therefore establish the property text "
+        "only for assignments no constraint statement mentions through a longer or shorter access (the class "
+        "`partial-access-mention`, on which the unchanged tool of 517e7a0 lists too few constraint statements)",
+        "CLI stage (fourth audit): path spellings (absolute / relative to cwd / `./relative`), option spellings (`-v`, "
+        "`--verbose`, none; `-l` / `--level`; `-s` / `--sarif-file`; `-c` / `--curve`), option position and layout "
+        "(single file, a second named file, the file included by a named main file and named itself) are drawn per run "
+        "from the seed; a file that is ONLY included is not run (its findings are hidden by design: C03 / C19); `--level "
+        "ERROR` (which hides every warning) is not run; the rendered body is read for labels drawn on one line each - a "
+        "finding with a label over several lines or two labels on one source line has only its label texts compared "
+        "(counted in coverage.e2e_cli_rendered_body); the tool displays the path it read the file from, not the "
+        "spelling of the command line (observed, counted, not judged)",
         "hypotheses of the theorems through SSA (C08_ssa_keeps_operators, C08_ssa_keeps_signal_assignments, "
         "C08_source_to_ssa_signal_assignments): `Model.Ssa.into_ssa frontier children c = SOk c'` and `c_blocks g = "
         "c_blocks c'` relate the mirror's output to the dumped real SSA graph; they are NOT evaluated by this check "
@@ -933,6 +1310,29 @@ def replay(ctx, rep):
         print("  model         :", models[0].get(name, {}).get("raw"))
         if "raw" in got and models[0].get(name, {}).get("raw") != got["raw"]:
             rc = 1
+    if rep.get("e2e") and rep.get("variant") and rep.get("spec") is not None:
+        # the run of the binary itself, with the spellings / layout of the recorded variant
+        var = rep["variant"]
+        work = os.path.join(ctx.work, "replay-e2e")
+        shutil.rmtree(work, ignore_errors=True)
+        os.makedirs(work, exist_ok=True)
+        res = run_cli(common.build_cli(), work, 0, src, var, keep_dir=True)
+        if "error" in res:
+            print("CLI:", res["error"])
+            return 1
+        own = res["own"]
+        wants, srcs = {own: [(tuple(a), [tuple(x) for x in secs]) for a, secs in rep["spec"]]}, {own: src}
+        if "second.circom" in res["files"]:
+            wants["second.circom"], srcs["second.circom"] = second_expected(), SECOND_SRC
+        if var["layout"] == "included-both":
+            wants["main.circom"], srcs["main.circom"] = [], MAIN_INC
+        why, _ = judge_cli(res, wants, srcs, var)
+        print("CLI run (%s): `circomspect %s` in %s (files kept in %s)" % (variant_name(var), res["cmd"], res["cwd"], work))
+        for n, fr in sorted(res["files"].items()):
+            print("  %s: SARIF findings %s" % (n, fr["sarif"]))
+            print("  %s: ranges underlined in the rendered text %s" % (n, fr["body"]))
+        print("now:", "; ".join(why) or "holds")
+        rc = 1 if why else rc
     if rep.get("spec") is not None:
         print("ground truth (anchor, constraint ranges):", rep.get("spec"))
         print("failure:", rep.get("why"))
